@@ -45,6 +45,11 @@ namespace Givaro {
                 return in ;
             }
             while ((ch==' ') && (in)) in.get(ch) ;
+            if (!in) { // only blanks up to the end of the stream: the value is complete
+                in.clear(std::ios::eofbit) ;
+                r = Rational(num) ;
+                return in ;
+            }
             if (ch == '/') {
                 // We get denominator
                 in >> den ;
